@@ -74,7 +74,15 @@ def build(run):
     c0 = ufl.Constant(t["msh"])
     x = ufl.SpatialCoordinate(t["msh"])
     i, j = Index(), Index()
-    terms = [f, g, u, v, A, B, c0]
+    t3 = corpus.terminals("tetrahedron")
+    f3, g3, u3, v3, A3 = t3["f"], t3["g"], t3["u"], t3["v"], t3["A"]
+    terms = [f, g, u, v, A, B, c0, f3, g3, u3, v3, A3]
+
+    def gdim_of(e):
+        try:
+            return ufl.domain.extract_unique_domain(e).geometric_dimension
+        except Exception:  # noqa: BLE001
+            return 2
     extra = [
         ("sum/product/div", (f + g) * f / (1 + g * g)), ("power int", f ** 3 - g ** 2), ("abs", abs(f) * g), ("conditional lt", conditional(lt(f, g), f * f, g)),
         ("conditional and/or/not", conditional(And(lt(f, g), Not(Or(gt(f, 1), le(g, 0)))), f, g * f)), ("conditional eq/ne", conditional(eq(f, g), f, conditional(ne(f, 2), g, 1))),
@@ -90,6 +98,13 @@ def build(run):
         ("det 3x3", det(ufl.as_matrix([[f, g, 1], [u[0], u[1], g], [2, f, v[0]]]))), ("dev 3x3 [1,1]", ufl.dev(ufl.as_matrix([[f, g, 1], [u[0], u[1], g], [2, f, v[0]]]))[1, 1]),
         ("cofac 3x3 [0,1]", ufl.cofac(ufl.as_matrix([[f, g, 1], [u[0], u[1], g], [2, f, v[0]]]))[0, 1]),
         ("cross", cross(as_vector([f, g, 1]), as_vector([g, f, 2]))[0]), ("nabla_grad", ufl.nabla_grad(u)[0, 1]), ("nabla_div", ufl.nabla_div(u)), ("curl 2d", ufl.curl(u)),
+        # a component of a tensor-valued conditional (the condition is scalar, the branches are not)
+        ("component of a vector-valued conditional", conditional(gt(f, 0), u, v)[1]), ("component of a matrix-valued conditional", conditional(lt(f, g), A, B)[0, 1] * g),
+        ("vector-valued conditional contracted", conditional(gt(f, g), u, v)[i] * u[i]),
+        # three space dimensions (fields on a tetrahedron mesh)
+        ("curl 3d [0]", ufl.curl(u3)[0]), ("curl 3d [1]", ufl.curl(u3)[1]), ("curl 3d [2]", ufl.curl(u3)[2]), ("curl(f3*u3) . v3", dot(ufl.curl(f3 * u3), v3)),
+        ("div 3d", div(u3 * f3)), ("grad 3d [2]", grad(f3 * g3)[2]), ("cross 3d", cross(u3, v3)[1]), ("det 3x3 coefficient", det(A3)), ("cofac 3x3 coefficient [2,0]", ufl.cofac(A3)[2, 0]),
+        ("dev 3x3 coefficient [0,0]", ufl.dev(A3)[0, 0]), ("inv 3x3 coefficient [1,2]", inv(A3)[1, 2]), ("rot 3d of grad", ufl.rot(grad(f3) * g3)[1]),
     ]
     math_exprs = [
         ("sqrt", sqrt(1 + f * f)), ("exp ln", exp(f) * ln(1 + g * g)), ("sin cos", sin(f) * cos(g)), ("tanh cosh", tanh(f) + cosh(g)), ("atan2", atan2(f, 1 + g * g)),
@@ -123,7 +138,8 @@ def build(run):
             nv = 0
             for c in comps:
                 def fn():
-                    return e((SymReal("x[0|]"), SymReal("x[1|]")), mapping_sym(), c) if c else e((SymReal("x[0|]"), SymReal("x[1|]")), mapping_sym())
+                    pt = tuple(SymReal(f"x[{d_}|]") for d_ in range(gdim_of(e)))
+                    return e(pt, mapping_sym(), c) if c else e(pt, mapping_sym())
                 paths, complete = explore(fn, lambda: ())
                 if not complete:
                     return undecided(f"{name}: path cap")
@@ -171,7 +187,7 @@ def build(run):
                     def fn(xx, der=(), tm=tm):
                         return nested(tm.ufl_shape, lambda c: float(val(sym_name(tm, c, der))))
                     m[tm] = fn
-                xs = (float(val("x[0|]")), float(val("x[1|]")))
+                xs = tuple(float(val(f"x[{d_}|]")) for d_ in range(gdim_of(e)))
                 w = spec_world(False, val)
                 for c in comps:
                     try:
@@ -179,6 +195,12 @@ def build(run):
                         spec = float(N.base_value(den(w, e, c, {})))
                     except (ValueError, ZeroDivisionError, OverflowError):
                         continue
+                    except (TypeError, IndexError, KeyError, AttributeError) as ex:
+                        from ufv.core import crash_text, deliberate
+                        if deliberate(ex):
+                            continue
+                        return violated(f"{name}: point evaluation crashed instead of returning a value: {crash_text(ex)}",
+                                        replay={"expr": str(e), "component": list(c), "point": {k: str(q) for k, q in vals.items()}}, reproduced=True, backend="exec")
                     n += 1
                     if abs(complex(got) - spec) > 1e-9 * max(1.0, abs(spec)):
                         return violated(f"{name}: e(x, mapping) = {got} but the mathematical value is {spec} at {dict((k, str(q)) for k, q in vals.items())}",
